@@ -166,6 +166,16 @@ PROPERTIES = {
         "targets": [{"name": "c14_p%d" % k, "src": "c14_any_image.cpp", "mode": "asan", "rapidcheck": True,
                      "flags": ["-DC14_PART=%d" % k, '-DVERIF_TARGET_NAME="c14_p%d"' % k], "subtargets": (["transform"] if k == 0 else ["value"] if k == 7 else ["pair"]), "match": ("part", None, k)} for k in range(8)],
     },
+    "C15": {
+        "level": "exploration",
+        "assumptions": [
+            "kernel values and contents are chosen so that every exact sum fits the destination channel (an out-of-range float or integer to channel conversion is the caller's business, not the property's)",
+            "extend_padded: the source is a sub-view of a root that holds exactly left/right (top/bottom) kernel extent of padding; nothing beyond it is accessible",
+            "extend_constant on an empty view is not generated for extend_row/col/boundary (no edge pixel exists, the policy describes nothing)",
+            "convolve_2d lives in namespace detail; it is exercised with small integer values so that its float accumulator is exact",
+        ],
+        "targets": [{"name": "c15_conv", "src": "c15_convolve.cpp", "mode": "asan", "rapidcheck": True, "flags": ['-DVERIF_TARGET_NAME="c15_conv"'], "subtargets": ["conv", "conv2d", "extend"]}],
+    },
     "C13": {
         "level": "exploration",
         "assumptions": [
